@@ -82,6 +82,17 @@ theorem C16_ciphertext_on_wire_kw (ctx : AadCtx) (prot kid iv : Bytes) (kek cek 
       subst hm ht
       exact ⟨aad, p, rfl, rfl, rfl, rfl, rfl, rfl, rfl⟩
 
+/-- **The wire carries the ciphertext, attached records included.** Whatever object is attached to
+    the target block at the source (an administrative record the agent built, say), once `apply_bcb`
+    has stored the ciphertext in the block's `btsd` field that field – not a re-encoding of the
+    attached object – is what the block emits. -/
+theorem C16_wire_is_ciphertext (ctx : AadCtx) (prot kid iv : Bytes) (k : Key) (m : Msg) (t : Canonical)
+    (attached : Option Bytes) (h : applyEnc0 P crcFn ctx prot kid iv k = some (m, t)) :
+    ∃ aad p, encInput crcFn ctx "Encrypt0" prot = some aad ∧ ctx.tgt.btsd = some p ∧
+      (TxBlock.mk t attached).wireBtsd = P.aeadEnc k iv aad p := by
+  obtain ⟨aad, p, h1, h2, h3, _⟩ := C16_ciphertext_on_wire P crcFn ctx prot kid iv k m t h
+  exact ⟨aad, p, h1, h2, by simp [TxBlock.wireBtsd, h3]⟩
+
 /-- **Frame.** The AEAD associated data depends on the covered view and the protected header only. -/
 theorem C16_frame (x y : AadCtx) (context : String) (prot : Bytes)
     (hv : coveredView crcFn x = coveredView crcFn y) :
